@@ -640,6 +640,16 @@ func runCanon(c *Ctx) {
 	add(`cr-window pipe docsize=100 ndocs=200 term=CR err={"b": tru } reads=full`, jsonCase{cr, "pipe", "full", false})
 	// known finding: --stream positions use offsets of dec.Token(), which are not absolute
 	add(`stream-offset seek input={"b": tru }`, jsonCase{[]byte(`{"b": tru }` + "\n"), "seek", "", true})
+	// known finding candidate: go-yaml's Index counts characters, gojq uses it as a byte offset
+	{
+		data := []byte("\u4e16\u754c: 1\n  x: 2\n")
+		idx, _ := refYAMLIndex(data)
+		var out, er bytes.Buffer
+		cli.VerifRunC17([]string{"--yaml-input", "-c", "0"}, bytes.NewReader(data), &out, &er)
+		rep := parseReport(er.String(), "invalid yaml: ", "<stdin>", "<stdin>")
+		c.Emit("(yaml (seek) %s %s %d %s %s %s)", Hexs([]byte("<stdin>")), Hexs(data), idx, Hexs(er.Bytes()), rep, swtab(excerptOf(rep)))
+		names = append(names, `yaml-char-index seek input="\u4e16\u754c: 1\n  x: 2\n"`)
+	}
 	// regression (D7, repaired by e216f69): read-ahead containing the offending byte must be kept
 	add(`regression pipe-reset docsize=100 ndocs=164 err={"b": tru } reads=full`, jsonCase{d7, "pipe", "full", false})
 	add(`regression pipe-reset docsize=100 ndocs=164 err={"b": tru } trailing=1,2,3 reads=full`, jsonCase{d7b, "pipe", "full", false})
@@ -979,6 +989,7 @@ func runYAML(c *Ctx) {
 		"name: \u4e16\u754c\nlist:\n  - 1\n  - two\n  - {a: b}\nnested:\n  k: v\n  deep:\n    - x: 1\n",
 		"- a\n- b: c\n  d: [1, 2, 3]\n- \"quoted \u00e9\"\n",
 		"k1: v1\nk2: |\n  block text\n  more\nk3: end\n",
+		"\u4e16\u754c: 1\nk\u00e9y: [1, 2]\n\U0001F600: {a: \u3042}\n",
 	}
 	faults := []string{"\t", "[", "{", "\"", ": :", "@", "- - :", "]", "&", "*x"}
 	for bi, b := range base {
